@@ -101,3 +101,21 @@ pub fn vx_all_ids(files: &crate::graph::GraphFiles) -> (r: Vec<crate::graph::Fil
 { unimplemented!() }
 }
 
+
+verus! {
+/// R9 wrapper for `a[range].iter().sum()` over a usize array (Iterator::sum is a provided trait method: no Verus model).
+/// TRUSTED: the std documentation of range indexing (panics unless lo <= hi <= len) and of `sum` (panics on overflow in
+/// debug builds, so no overflow is a precondition here as it is for the `+` chain this replaces).
+pub trait VxRange { spec fn lo(&self) -> int; spec fn hi(&self, n: int) -> int; }
+impl VxRange for std::ops::Range<usize> { open spec fn lo(&self) -> int { self.start as int } open spec fn hi(&self, n: int) -> int { self.end as int } }
+impl VxRange for std::ops::RangeInclusive<usize> { open spec fn lo(&self) -> int { self@.start as int } open spec fn hi(&self, n: int) -> int { self@.end as int + 1 } }
+impl VxRange for std::ops::RangeTo<usize> { open spec fn lo(&self) -> int { 0 } open spec fn hi(&self, n: int) -> int { self.end as int } }
+impl VxRange for std::ops::RangeFrom<usize> { open spec fn lo(&self) -> int { self.start as int } open spec fn hi(&self, n: int) -> int { n } }
+impl VxRange for std::ops::RangeFull { open spec fn lo(&self) -> int { 0 } open spec fn hi(&self, n: int) -> int { n } }
+pub open spec fn vx_ssum(s: Seq<usize>, lo: int, hi: int) -> int decreases hi - lo { if lo >= hi { 0 } else { s[lo] + vx_ssum(s, lo + 1, hi) } }
+#[verifier::external_body]
+pub fn vx_sum_range<const N: usize, R: VxRange>(a: &[usize; N], r: R) -> (s: usize)
+    requires 0 <= r.lo() <= r.hi(N as int) <= N, vx_ssum(a@, r.lo(), r.hi(N as int)) <= usize::MAX,
+    ensures s == vx_ssum(a@, r.lo(), r.hi(N as int)),
+{ unimplemented!() }
+}
